@@ -566,7 +566,10 @@ impl Check for C13SelRef {
             }
             go(e, name)
         };
-        let args = vec!["--select=\"decoy-a\" = da".to_string(), select_arg(&c.x, name, &sp), "--select=\"decoy-b\" = db".to_string(), select_arg(&rename(&c.e), "a", &sp), select_arg(&as_var, "b", &sp)];
+        // the selection in front of it is called S0 when the referenced one is s0: names are
+        // case-sensitive
+        let first = if name == "s0" { "S0" } else { "da" };
+        let args = vec![format!("--select=\"decoy-a\" = {}", first), select_arg(&c.x, name, &sp), "--select=\"decoy-b\" = db".to_string(), select_arg(&rename(&c.e), "a", &sp), select_arg(&as_var, "b", &sp)];
         let input: Vec<u8> = c.records.join("\n").into_bytes();
         let o = run(&args, &input);
         if !o.res.is_ok() {
